@@ -362,7 +362,7 @@ def monitor(wd, module, cfg, trace_path, timeout=3600, heap=None):
     r = tlc(wd, module, cfg, workers=1, timeout=timeout, heap=heap, extra=["-noGenerateSpecTE"])
     vs = r.prints("VERDICT")
     if r.rc != 0 or len(vs) != 1:
-        raise Infra(f"{module} did not produce a verdict (rc={r.rc}):\n" + r.out[-3000:])
+        raise Infra(f"{module} did not produce a verdict (rc={r.rc}):\n" + r.counterexample()[:2500] + "\n...\n" + r.out[-1500:])
     v = vs[0]
     if v["consumed"] != n:
         raise Infra(f"{module} consumed {v['consumed']} of {n} events")
